@@ -688,7 +688,12 @@ func ReplayStore(id int, d StoreDims, steps []StoreStep) (res Result) {
 				s.coll.ExecuteBatch(b, moss.WriteOptions{})
 				b.Close()
 			}
-			s.coll.(Notifier).NotifyMerger("mergeAll", false)
+			// (a read-only collection has no merger goroutine: asynchronous notifications only queue up in
+			// the ping channel, capacity 10, and the next one would block for ever -- stay below that)
+			if s.roNotifies < 5 {
+				s.roNotifies++
+				s.coll.(Notifier).NotifyMerger("mergeAll", false)
+			}
 			s.coll.Stats()
 			if cs, e := s.coll.Snapshot(); e == nil {
 				s.store.Persist(cs, moss.StorePersistOptions{CompactionConcern: moss.CompactionForce})
